@@ -91,6 +91,60 @@ for _p in range(3):
 del _f, _p, _q
 
 
+# ---- W1b: an update that is still queued when its parent context's completion is handed over ------------------
+@h.lemma(timeout=300, thorough_timeout=900, funcs=FUNCS + ["state.ExecutionState._mark_orphans", "state.ExecutionState._has_completed_ancestor"],
+         reach=("end", "sync_ok", "inflight", "rejected"),
+         bounds="one synchronous step SUCCEED under context op9 (producer 0) and the CONTEXT SUCCEED of op9 (producer 1, sync or async), "
+                "max_ops 1..2 (one or two API calls), response inline or paginated, ONE preemption at any of the first 30 yield points "
+                "switching to any of the three threads: the step update may be queued, in flight or not yet handed over when its "
+                "parent completes")
+def w1_orphaned_in_flight(paged: bool, max_ops: int, pstep: int, pto: int, ctx_sync: bool):
+    """
+    pre: 1 <= max_ops <= 2 and 1 <= pstep <= 30 and 0 <= pto <= 2
+    post: True
+    """
+    from aws_durable_execution_sdk_python.exceptions import BackgroundThreadError, OrphanedChildException
+    from aws_durable_execution_sdk_python.lambda_service import OperationType
+    w = World(10, max_ops, 0.2, Client(page_split=paged), pre_step=[pstep], pre_to=[pto])
+    ups = [Upd(0, 1, parent_id="op9", otype=OperationType.STEP, action=A.SUCCEED),
+           Upd(9, 1, parent_id=None, otype=OperationType.CONTEXT, action=A.SUCCEED)]
+    syncs = [True, ctx_sync]
+    seen = {}
+
+    def producer(i):
+        def body():
+            try:
+                yield from w.state._co_create_checkpoint(ups[i], syncs[i])
+            except OrphanedChildException:
+                seen[i] = ("rejected", None, None)   # the caller learns that nothing was recorded: no outcome becomes visible
+                w.outcomes[f"p{i}"] = ("err",)
+                return
+            except BackgroundThreadError:
+                seen[i] = ("err", None, None)
+                w.outcomes[f"p{i}"] = ("err",)
+                return
+            seen[i] = ("ok", ups[i].i in w.client.applied, w.state.operations.get(ups[i].operation_id) is not None)
+            w.outcomes[f"p{i}"] = ("ok",)
+
+        return w.sched.spawn(f"p{i}", body())
+
+    for i in range(2):
+        producer(i)
+    w.run()
+    for i in range(2):
+        h.check(i in seen, "caller blocked forever")
+        if seen[i][0] == "rejected":
+            h.check(i == 0, "the context's own completion was rejected as orphaned")
+            h.reach("rejected")
+        if syncs[i] and seen[i][0] == "ok":
+            h.reach("sync_ok")
+            if i == 0 and "op0" in w.state._parent_done:
+                h.reach("inflight")
+            h.check(seen[i][1], "a synchronous checkpoint returned before the backend accepted its update (update queued when its parent context completed)")
+            h.check(seen[i][2], "a synchronous checkpoint returned before the response records were merged into the state")
+    h.end()
+
+
 # ---------------------------------------------------------------------------------------- W2: handlers
 def _justified(tr, rec):
     """the last update for the id is synchronous and is the record that justifies how process() left"""
